@@ -58,6 +58,10 @@ def run(P, rep, tier):
     rep.attempt(r4_query_scope, P, rep, ctx)
     rep.attempt(r5_fresh_view, P, rep, ctx)
     rep.attempt(r6_children_index, P, rep, ctx)
+    # objects stay findable: destroying *copied* metadata must never unregister the links of the originals
+    from . import c06
+
+    rep.attempt(c06.r_unlink_threading, P, rep, ctx, "C07.R7")
     rep.floor("C07.R1", 5)
     rep.floor("C07.R2", 7)
     rep.floor("C07.R3", 3)
